@@ -427,3 +427,236 @@ Theorem C01_tpl_shl16_8_alias_refuted :
   exists st st', bytes_ok st /\ runs_to cfg_listing (template (SShl16_8 "s" "s")) st st' /\
     word (mem st) 134 = 1 /\ (256 * word (mem st) 134) mod 65536 = 256 /\ word (mem st') 134 = 0.
 Proof. exact shl16_8_alias_refuted. Qed.
+
+
+(** * 16-bit comparisons (Model/GenCmp16.v: the sequences the generator emits for 20 conditional forms,
+    compared with the real generator on every run).  Unsigned forms: proved correct on [Sem.run] for
+    ALL states (the [>] / [<=] sequences are those of fix 4099f0d; the sequences before that fix are
+    kept as [code16_old] with their exact failure set: known finding F-C01-cmp16-unsigned-borrow,
+    fixed).  Signed forms: correct exactly when the 16-bit subtraction does not overflow; wrong on
+    every overflowing pair (known finding F-C01-cmp16). *)
+From CC Require Import Model.GenCmp16 Proofs.GenCmp16Facts.
+
+Theorem C01_cmp16_if16_cc_correct : forall o cfg x y dst lend lstart px py pd pcc st,
+  keeps_lo o = true ->
+  ports cfg = [] -> var_name x -> var_name y -> var_name dst ->
+  lend <> ""%string -> (o <> REq -> lstart <> ""%string /\ lstart <> lend) ->
+  layout cfg x = Some px -> layout cfg y = Some py -> layout cfg dst = Some pd ->
+  layout cfg cctmp = Some pcc ->
+  0 <= px -> px + 1 < 65536 -> 0 <= py -> py + 1 < 65536 -> 0 <= pd < 65536 -> 0 <= pcc < 65536 ->
+  pcc <> px + 1 -> pcc <> py + 1 -> pd <> pcc ->
+  bytes_ok st ->
+  exists st', runs_to cfg (code16 (CIf16 o x y dst lend lstart)) st st' /\
+    mget (mem st') pd
+    = (if rel16 o (word (mem st) px) (word (mem st) py) then 1 else mget (mem st) pd) /\
+    only_changes [pd; pcc] st st' /\ keeps_xys st st'.
+Proof. exact if16_cc_correct. Qed.
+
+Theorem C01_cmp16_if16_nocc_correct : forall o cfg x y dst lend lstart px py pd st,
+  keeps_lo o = false ->
+  ports cfg = [] -> var_name x -> var_name y -> var_name dst ->
+  lend <> ""%string ->
+  layout cfg x = Some px -> layout cfg y = Some py -> layout cfg dst = Some pd ->
+  0 <= px -> px + 1 < 65536 -> 0 <= py -> py + 1 < 65536 -> 0 <= pd < 65536 ->
+  bytes_ok st ->
+  exists st', runs_to cfg (code16 (CIf16 o x y dst lend lstart)) st st' /\
+    mget (mem st') pd
+    = (if rel16 o (word (mem st) px) (word (mem st) py) then 1 else mget (mem st) pd) /\
+    only_changes [pd] st st' /\ keeps_xys st st'.
+Proof. exact if16_nocc_correct. Qed.
+
+Theorem C01_cmp16_if16k_cc_correct : forall o cfg x k dst lend lstart px pd pcc st,
+  keeps_lo o = true ->
+  ports cfg = [] -> var_name x -> var_name dst ->
+  lend <> ""%string -> (o <> REq -> lstart <> ""%string /\ lstart <> lend) ->
+  layout cfg x = Some px -> layout cfg dst = Some pd -> layout cfg cctmp = Some pcc ->
+  0 <= px -> px + 1 < 65536 -> 0 <= pd < 65536 -> 0 <= pcc < 65536 -> 0 <= k < 65536 ->
+  pcc <> px + 1 -> pd <> pcc ->
+  bytes_ok st ->
+  exists st', runs_to cfg (code16 (CIf16K o x k dst lend lstart)) st st' /\
+    mget (mem st') pd = (if rel16 o (word (mem st) px) k then 1 else mget (mem st) pd) /\
+    only_changes [pd; pcc] st st' /\ keeps_xys st st'.
+Proof. exact if16k_cc_correct. Qed.
+
+Theorem C01_cmp16_if16k_nocc_correct : forall o cfg x k dst lend lstart px pd st,
+  keeps_lo o = false ->
+  ports cfg = [] -> var_name x -> var_name dst ->
+  lend <> ""%string ->
+  layout cfg x = Some px -> layout cfg dst = Some pd ->
+  0 <= px -> px + 1 < 65536 -> 0 <= pd < 65536 -> 0 <= k < 65536 ->
+  bytes_ok st ->
+  exists st', runs_to cfg (code16 (CIf16K o x k dst lend lstart)) st st' /\
+    mget (mem st') pd = (if rel16 o (word (mem st) px) k then 1 else mget (mem st) pd) /\
+    only_changes [pd] st st' /\ keeps_xys st st'.
+Proof. exact if16k_nocc_correct. Qed.
+
+Theorem C01_cmp16_ifnz16_correct : forall cfg x dst lend lstart px pd pcc st,
+  ports cfg = [] -> var_name x -> var_name dst ->
+  lend <> ""%string -> lstart <> ""%string -> lstart <> lend ->
+  layout cfg x = Some px -> layout cfg dst = Some pd -> layout cfg cctmp = Some pcc ->
+  0 <= px -> px + 1 < 65536 -> 0 <= pd < 65536 -> 0 <= pcc < 65536 ->
+  pcc <> px + 1 -> pd <> pcc ->
+  bytes_ok st ->
+  exists st', runs_to cfg (code16 (CIfNz16 x dst lend lstart)) st st' /\
+    mget (mem st') pd = (if negb (word (mem st) px =? 0) then 1 else mget (mem st) pd) /\
+    only_changes [pd; pcc] st st' /\ keeps_xys st st'.
+Proof. exact ifnz16_correct. Qed.
+
+Theorem C01_cmp16_ifz16_correct : forall cfg x dst lend px pd pcc st,
+  ports cfg = [] -> var_name x -> var_name dst ->
+  lend <> ""%string ->
+  layout cfg x = Some px -> layout cfg dst = Some pd -> layout cfg cctmp = Some pcc ->
+  0 <= px -> px + 1 < 65536 -> 0 <= pd < 65536 -> 0 <= pcc < 65536 ->
+  pcc <> px + 1 -> pd <> pcc ->
+  bytes_ok st ->
+  exists st', runs_to cfg (code16 (CIfZ16 x dst lend)) st st' /\
+    mget (mem st') pd = (if word (mem st) px =? 0 then 1 else mget (mem st) pd) /\
+    only_changes [pd; pcc] st st' /\ keeps_xys st st'.
+Proof. exact ifz16_correct. Qed.
+
+Theorem C01_cmp16_iflt16_8_correct : forall cfg x y dst lend px py pd st,
+  ports cfg = [] -> var_name x -> var_name y -> var_name dst ->
+  lend <> ""%string ->
+  layout cfg x = Some px -> layout cfg y = Some py -> layout cfg dst = Some pd ->
+  0 <= px -> px + 1 < 65536 -> 0 <= py < 65536 -> 0 <= pd < 65536 ->
+  bytes_ok st ->
+  exists st', runs_to cfg (code16 (CIfLt16_8 x y dst lend)) st st' /\
+    mget (mem st') pd
+    = (if word (mem st) px <? mget (mem st) py then 1 else mget (mem st) pd) /\
+    only_changes [pd] st st' /\ keeps_xys st st'.
+Proof. exact iflt16_8_correct. Qed.
+
+Theorem C01_cmp16_dolt16_iter : forall cfg x y v lloop lend px py pv st,
+  ports cfg = [] -> var_name x -> var_name y -> var_name v ->
+  lloop <> ""%string ->
+  layout cfg x = Some px -> layout cfg y = Some py -> layout cfg v = Some pv ->
+  0 <= px -> px + 1 < 65536 -> 0 <= py -> py + 1 < 65536 -> 0 <= pv < 65536 ->
+  pv <> px -> pv <> px + 1 -> pv <> py -> pv <> py + 1 ->
+  bytes_ok st ->
+  exists st', iter_to cfg (code16 (CDoLt16 x y v lloop lend)) lloop st
+                (word (mem st) px <? word (mem st) py) st' /\
+    mget (mem st') pv = (mget (mem st) pv + 1) mod 256 /\
+    only_changes [pv] st st' /\ keeps_xys st st'.
+Proof. exact dolt16_iter. Qed.
+
+Theorem C01_cmp16_dogt16_iter : forall cfg x y v lloop lstart lend px py pv pcc st,
+  ports cfg = [] -> var_name x -> var_name y -> var_name v ->
+  lloop <> ""%string -> lstart <> ""%string -> lstart <> lloop ->
+  layout cfg x = Some px -> layout cfg y = Some py -> layout cfg v = Some pv ->
+  layout cfg cctmp = Some pcc ->
+  0 <= px -> px + 1 < 65536 -> 0 <= py -> py + 1 < 65536 -> 0 <= pv < 65536 -> 0 <= pcc < 65536 ->
+  pv <> px -> pv <> px + 1 -> pv <> py -> pv <> py + 1 ->
+  pcc <> px + 1 -> pcc <> py + 1 -> pv <> pcc ->
+  bytes_ok st ->
+  exists st', iter_to cfg (code16 (CDoGt16 x y v lloop lstart lend)) lloop st
+                (word (mem st) py <? word (mem st) px) st' /\
+    mget (mem st') pv = (mget (mem st) pv + 1) mod 256 /\
+    only_changes [pv; pcc] st st' /\ keeps_xys st st'.
+Proof. exact dogt16_iter. Qed.
+
+Theorem C01_cmp16_ifslt16_correct_no_overflow : forall cfg x y dst lend px py pd st,
+  ports cfg = [] -> var_name x -> var_name y -> var_name dst ->
+  lend <> ""%string ->
+  layout cfg x = Some px -> layout cfg y = Some py -> layout cfg dst = Some pd ->
+  0 <= px -> px + 1 < 65536 -> 0 <= py -> py + 1 < 65536 -> 0 <= pd < 65536 ->
+  bytes_ok st ->
+  -32768 <= sval (word (mem st) px) - sval (word (mem st) py) <= 32767 ->
+  exists st', runs_to cfg (code16 (CIfSLt16 x y dst lend)) st st' /\
+    mget (mem st') pd
+    = (if sval (word (mem st) px) <? sval (word (mem st) py) then 1 else mget (mem st) pd) /\
+    only_changes [pd] st st' /\ keeps_xys st st'.
+Proof. exact ifslt16_correct_no_overflow. Qed.
+
+Theorem C01_cmp16_ifslt16_wrong_on_overflow : forall cfg x y dst lend px py pd st,
+  ports cfg = [] -> var_name x -> var_name y -> var_name dst ->
+  lend <> ""%string ->
+  layout cfg x = Some px -> layout cfg y = Some py -> layout cfg dst = Some pd ->
+  0 <= px -> px + 1 < 65536 -> 0 <= py -> py + 1 < 65536 -> 0 <= pd < 65536 ->
+  bytes_ok st ->
+  ~ (-32768 <= sval (word (mem st) px) - sval (word (mem st) py) <= 32767) ->
+  exists st', runs_to cfg (code16 (CIfSLt16 x y dst lend)) st st' /\
+    mget (mem st') pd
+    = (if sval (word (mem st) px) <? sval (word (mem st) py) then mget (mem st) pd else 1).
+Proof. exact ifslt16_wrong_on_overflow. Qed.
+
+Theorem C01_cmp16_ifsge16_correct_no_overflow : forall cfg x y dst lend px py pd st,
+  ports cfg = [] -> var_name x -> var_name y -> var_name dst ->
+  lend <> ""%string ->
+  layout cfg x = Some px -> layout cfg y = Some py -> layout cfg dst = Some pd ->
+  0 <= px -> px + 1 < 65536 -> 0 <= py -> py + 1 < 65536 -> 0 <= pd < 65536 ->
+  bytes_ok st ->
+  -32768 <= sval (word (mem st) px) - sval (word (mem st) py) <= 32767 ->
+  exists st', runs_to cfg (code16 (CIfSGe16 x y dst lend)) st st' /\
+    mget (mem st') pd
+    = (if sval (word (mem st) py) <=? sval (word (mem st) px) then 1 else mget (mem st) pd) /\
+    only_changes [pd] st st' /\ keeps_xys st st'.
+Proof. exact ifsge16_correct_no_overflow. Qed.
+
+Theorem C01_cmp16_ifsge16_wrong_on_overflow : forall cfg x y dst lend px py pd st,
+  ports cfg = [] -> var_name x -> var_name y -> var_name dst ->
+  lend <> ""%string ->
+  layout cfg x = Some px -> layout cfg y = Some py -> layout cfg dst = Some pd ->
+  0 <= px -> px + 1 < 65536 -> 0 <= py -> py + 1 < 65536 -> 0 <= pd < 65536 ->
+  bytes_ok st ->
+  ~ (-32768 <= sval (word (mem st) px) - sval (word (mem st) py) <= 32767) ->
+  exists st', runs_to cfg (code16 (CIfSGe16 x y dst lend)) st st' /\
+    mget (mem st') pd
+    = (if sval (word (mem st) py) <=? sval (word (mem st) px) then mget (mem st) pd else 1).
+Proof. exact ifsge16_wrong_on_overflow. Qed.
+
+Theorem C01_cmp16_ifslt16_refuted : exists st st',
+  bytes_ok st /\
+  runs_to cfg16 (code16 (CIfSLt16 "ss" "st" "a" ".ifend1")) st st' /\
+  sval (word (mem st) 140) = -32768 /\ sval (word (mem st) 142) = 1 /\
+  sval (word (mem st) 140) < sval (word (mem st) 142) /\
+  mget (mem st) 128 = 0 /\ mget (mem st') 128 = 0.
+Proof. exact ifslt16_refuted. Qed.
+
+Theorem C01_cmp16_ifsge16_refuted : exists st st',
+  bytes_ok st /\
+  runs_to cfg16 (code16 (CIfSGe16 "ss" "st" "a" ".ifend1")) st st' /\
+  sval (word (mem st) 140) = -32768 /\ sval (word (mem st) 142) = 1 /\
+  ~ (sval (word (mem st) 142) <= sval (word (mem st) 140)) /\
+  mget (mem st) 128 = 0 /\ mget (mem st') 128 = 1.
+Proof. exact ifsge16_refuted. Qed.
+
+Theorem C01_cmp16_old_le16_char : forall cfg x y dst lend lhere lstart px py pd pcc st,
+  ports cfg = [] -> var_name x -> var_name y -> var_name dst ->
+  lend <> ""%string -> lhere <> ""%string -> lstart <> ""%string ->
+  lhere <> lend -> lhere <> lstart -> lstart <> lend ->
+  layout cfg x = Some px -> layout cfg y = Some py -> layout cfg dst = Some pd ->
+  layout cfg cctmp = Some pcc ->
+  0 <= px -> px + 1 < 65536 -> 0 <= py -> py + 1 < 65536 -> 0 <= pd < 65536 -> 0 <= pcc < 65536 ->
+  pcc <> px + 1 -> pcc <> py + 1 -> pd <> pcc ->
+  bytes_ok st ->
+  exists st', runs_to cfg (code16_old (OIfLe16 x y dst lend lhere lstart)) st st' /\
+    mget (mem st') pd
+    = (if (word (mem st) px <=? word (mem st) py) && (word (mem st) py - word (mem st) px <? 65281)
+       then 1 else mget (mem st) pd) /\
+    only_changes [pd; pcc] st st' /\ keeps_xys st st'.
+Proof. exact old_le16_char. Qed.
+
+Theorem C01_cmp16_old_le16_refuted : exists st st',
+  bytes_ok st /\
+  runs_to cfg16 (code16_old (OIfLe16 "s" "t" "a" ".ifend1" ".ifhere2" ".ifstart2")) st st' /\
+  word (mem st) 134 = 0 /\ word (mem st) 136 = 65281 /\
+  word (mem st) 134 <= word (mem st) 136 /\
+  mget (mem st) 128 = 0 /\ mget (mem st') 128 = 0.
+Proof. exact old_le16_refuted. Qed.
+
+Theorem C01_cmp16_old_dogt16_iter_char : forall cfg x y v lloop lhere lstart lend px py pv pcc st,
+  ports cfg = [] -> var_name x -> var_name y -> var_name v ->
+  lloop <> ""%string -> lhere <> ""%string -> lstart <> ""%string ->
+  lhere <> lloop -> lstart <> lloop -> lhere <> lstart ->
+  layout cfg x = Some px -> layout cfg y = Some py -> layout cfg v = Some pv ->
+  layout cfg cctmp = Some pcc ->
+  0 <= px -> px + 1 < 65536 -> 0 <= py -> py + 1 < 65536 -> 0 <= pv < 65536 -> 0 <= pcc < 65536 ->
+  pv <> px -> pv <> px + 1 -> pv <> py -> pv <> py + 1 ->
+  pcc <> px + 1 -> pcc <> py + 1 -> pv <> pcc ->
+  bytes_ok st ->
+  exists st', iter_to cfg (code16_old (ODoGt16 x y v lloop lhere lstart lend)) lloop st
+                ((word (mem st) py <? word (mem st) px)
+                 || (65281 <=? word (mem st) py - word (mem st) px)) st' /\
+    mget (mem st') pv = (mget (mem st) pv + 1) mod 256 /\
+    only_changes [pv; pcc] st st' /\ keeps_xys st st'.
+Proof. exact old_dogt16_iter_char. Qed.
